@@ -40,6 +40,15 @@ strengthened = {
     "C19-e": "C19: clients also send spawn commands (apply / start), in particular while the pool is locked (the reply is an empty line, but it is a reply)",
     "C20-e": "C20: non-blocking producers (put_nowait on bounded queues, QueueFull caught)",
     "C04-e": "C04: two pools per scenario half of the time; a task that was created for an invocation, never cancelled and never began is now a C04 clause (lost_invocation)",
+    "C06-f": "pool world: workers may wait in `async with queue` on the library's own Queue (suspension point inside library code); items are put, alone or in the same handle as a cancellation of a waiting worker, in either order",
+    "C07-f": "placement sweeps: three more base scenarios with more than ten task starts per pool (tenth start, two-digit ids); random generator: ~8% long histories (60-160 steps, apply num 12/15, map of 20/30 elements)",
+    "C09-f": "C09: the rejected callables are created per request (closures, lambdas, bound methods) instead of module-level constants, so object ids get recycled the way they do in a long-lived program",
+    "C10-f": "C10: 'burst' operation - 11 to 14 unnamed requests for the same function back to back (two-digit group indices); a request without a group name failing over its own generated name is a C10 clause",
+    "C12-f": "map family: elements whose call raises come in short and long (> 80 characters) forms and several types (int, None, big int, tuple, dict, frozenset)",
+    "C16-f": "C16 server family: the same server object serves one to three periods (stop, everybody leaves, serve_forever() again)",
+    "C17-f": "C17: dotted paths into lazily imported packages (vf.lazy...), with the import state of the package chain (0-4 levels already imported) as an input - this found defect D11 in the unchanged code",
+    "C18-f": "control grammar: text parameters (group names) and number parameters now share part of their vocabulary ('7', '10', 'abc', 'one', '1.5')",
+    "C19-f": "C19: up to three serving periods per server object, clients of an earlier period may still be connected (earlier serving task pending) and leave while the server serves again; is_serving() is checked before every action - this found defect D12 in the unchanged code",
     "C08-e": "C08: pool_size assignments in the C08 generator (while tasks are inside callbacks)",
     "C13-e": "C13: new 'server' family - a session's pending flush plus the program's own flush while the control server is stopped; pool generator: flush calls whose caller gives up (cancelled flush) are modelled",
     "C14-e": "C14: exact oracle for stop()/stop_all() also when tasks cancelled before their first step are around (was lenient there)",
